@@ -43,12 +43,21 @@ func freshString(ex *Exec, st *State, fr *Frame, callee *ssa.Function, args []Va
 func lockKey(v Val) (string, bool) {
 	switch p := v.(type) {
 	case *PtrI:
+		if canonTerm != nil && p.A.Ref != "" {
+			a := *p.A
+			a.Ref = canonTerm(a.Ref)
+			return a.String(), true
+		}
 		return p.A.String(), true
 	case Sc:
 		return "mutex@" + p.T, true
 	}
 	return "", false
 }
+
+// canonTerm resolves bound names to their defining terms so that two loads of
+// the same pointer denote the same mutex (set per verification run).
+var canonTerm func(string) string
 
 func init() {
 	intrinsics = map[string]intrinsic{
@@ -109,6 +118,7 @@ func init() {
 		"(*" + tgPath + ".ThreadGroup).Stop":      noEffect,
 		"(*" + tgPath + ".ThreadGroup).StopChan":  noEffect,
 		"bytes.Equal":                             bytesEqual,
+		"io.ReadFull":                             ioReadFull,
 		"(*os.File).Write":                        fsWrite,
 		"(*os.File).WriteAt":                      fsWrite,
 		"(*os.File).WriteString":                  fsWrite,
@@ -139,7 +149,10 @@ func init() {
 	}
 	invokeModels = map[string]intrinsic{
 		"(error).Error":         freshString,
-		"(net.Listener).Accept": valOrErr,
+		"(net.Listener).Accept":        valOrErr,
+		"(net.Conn).SetDeadline":       connSetDeadline,
+		"(net.Conn).SetReadDeadline":   connSetDeadline,
+		"(net.Conn).Read":              connRead,
 	}
 	intrinsicWrites = map[string]func(c *ssa.CallCommon, ws *writeSet){
 		"sync/atomic.StoreUint32": func(c *ssa.CallCommon, ws *writeSet) { ws.all = true },
@@ -462,4 +475,57 @@ func (ex *Exec) f64bits(f string) string {
 		ex.vc.Assume(eq(app("(_ to_fp 11 53)", b), f))
 	}
 	return b
+}
+
+// Blocking-read typestate (C12, "can still be shut down in bounded time"): a
+// read on a network connection inside a goroutine that shutdown waits for
+// needs a deadline on that connection.
+func connSetDeadline(ex *Exec, st *State, fr *Frame, callee *ssa.Function, args []Val, c *ssa.CallCommon, pos token.Pos) Val {
+	h := sc(args[0]).T
+	st.ghost["$deadline_"+h] = Sc{"true", SBool}
+	return ex.freshResults(st, c.Signature().Results(), "dl")
+}
+
+func (ex *Exec) needDeadline(st *State, fr *Frame, connV Val, what string, pos token.Pos) {
+	if !ex.lockChecks {
+		return
+	}
+	h, ok := connV.(Sc)
+	if !ok {
+		return
+	}
+	has := "false"
+	if v, ok := st.ghost["$deadline_"+h.T]; ok {
+		has = sc(v).T
+	}
+	ex.oblige(st, fr, "blocking", pos, "", has)
+	ex.vc.Trust("blocking typestate: a read on a net.Conn is bounded only if a deadline was set on that connection")
+}
+
+func connRead(ex *Exec, st *State, fr *Frame, callee *ssa.Function, args []Val, c *ssa.CallCommon, pos token.Pos) Val {
+	ex.needDeadline(st, fr, args[0], "Read", pos)
+	ex.blockingCall(st, fr, "conn.Read", pos)
+	if len(c.Args) >= 1 {
+		ex.havocArg(st, args[1], c.Args[0].Type())
+	}
+	return ex.freshResults(st, c.Signature().Results(), "rd")
+}
+
+func ioReadFull(ex *Exec, st *State, fr *Frame, callee *ssa.Function, args []Val, c *ssa.CallCommon, pos token.Pos) Val {
+	// only connections are subject to the deadline rule; the reader's static
+	// type at the call site tells
+	if mi, ok := c.Args[0].(*ssa.ChangeInterface); ok && strings.Contains(mi.X.Type().String(), "net.Conn") {
+		ex.needDeadline(st, fr, args[0], "io.ReadFull", pos)
+	} else if strings.Contains(c.Args[0].Type().String(), "net.Conn") {
+		ex.needDeadline(st, fr, args[0], "io.ReadFull", pos)
+	}
+	ex.blockingCall(st, fr, "io.ReadFull", pos)
+	ex.havocArg(st, args[1], c.Args[1].Type())
+	res := ex.freshResults(st, c.Signature().Results(), "rf")
+	// n == len(buf) when err == nil
+	if a, ok := res.(*Agg); ok {
+		ln := ex.lenOf(st, args[1], c.Args[1].Type())
+		ex.assume(st, implies(eq(sc(a.F[1]).T, z64()), eq(sc(a.F[0]).T, ln)))
+	}
+	return res
 }
